@@ -289,10 +289,15 @@ class Checker:
         for c in constraints:
             s.add(c)
         t = time.time()
-        r = s.check()
+        text = s.to_smt2() if any(mirfmt.uses_replace(c) for c in constraints) else ""
+        if text:
+            r, m = solve_with_cvc5(text, timeout)   # str.replace_all: beyond z3's Python API, within cvc5's string solver
+        else:
+            r = s.check()
+            m = s.model() if r == z3.sat else None
         self.result["solver_s"] += time.time() - t
         self.result["queries"] += 1
-        return r, (s.model() if r == z3.sat else None)
+        return r, m
 
     def held(self, kind):
         self.result["discharged"] += 1
@@ -377,6 +382,72 @@ class Checker:
             self.result["violations"].append(rec)
         else:
             self.result["inconclusive"].append(what + " — not reproduced by the real Display impls (%s | %s): %s" % (a, b, out[:120]))
+
+
+class DictModel:
+    """A model read back from cvc5: constant name -> z3 value; eval() substitutes and simplifies."""
+
+    def __init__(self, values):
+        self.values = values
+
+    def eval(self, t, model_completion=True):
+        consts = {}
+
+        def walk(e):
+            if z3.is_const(e) and e.decl().kind() == z3.Z3_OP_UNINTERPRETED:
+                consts[e.decl().name()] = e
+            for c in e.children():
+                walk(c)
+        walk(t)
+        subs = []
+        for name, c in consts.items():
+            v = self.values.get(name)
+            if v is None:
+                v = z3.StringVal("") if z3.is_string(c) else z3.BoolVal(False) if z3.is_bool(c) else z3.BitVecVal(0, c.size())
+            elif z3.is_bv(c):
+                v = z3.BitVecVal(v, c.size())
+            elif z3.is_bool(c):
+                v = z3.BoolVal(v)
+            else:
+                v = z3.StringVal(v)
+            subs.append((c, v))
+        return z3.simplify(z3.substitute(t, *subs)) if subs else z3.simplify(t)
+
+
+def solve_with_cvc5(text, timeout):
+    import re
+    import tempfile
+    lines = [l for l in text.split("\n") if "declare-fun fml_str_replace_all" not in l and not l.startswith("(set-info")]
+    body = "\n".join(lines).replace("fml_str_replace_all", "str.replace_all")
+    body = "(set-logic ALL)\n(set-option :produce-models true)\n" + body + "\n(get-model)\n"
+    with tempfile.NamedTemporaryFile("w", suffix=".smt2", delete=False) as f:
+        f.write(body)
+        path = f.name
+    try:
+        p = subprocess.run(["cvc5", "--lang", "smt2", "--strings-exp", "--tlimit=%d" % timeout, path], stdout=subprocess.PIPE, stderr=subprocess.PIPE, text=True)
+    finally:
+        os.unlink(path)
+    out = p.stdout
+    if "(error" in out or "(error" in p.stderr:
+        return z3.unknown, None
+    first = out.strip().split("\n", 1)[0].strip() if out.strip() else ""
+    if first == "unsat":
+        return z3.unsat, None
+    if first != "sat":
+        return z3.unknown, None
+    values = {}
+    for mm in re.finditer(r'\(define-fun (\S+) \(\) (\S+|\(_ BitVec \d+\)) (.*)\)\s*$', out, flags=re.M):
+        name, sort, v = mm.group(1), mm.group(2), mm.group(3).strip()
+        if sort == "String":
+            inner = v[1:-1].replace('""', '"')
+            values[name] = re.sub(r"\\u\{([0-9a-fA-F]+)\}", lambda u: chr(int(u.group(1), 16)), inner)
+        elif sort == "Bool":
+            values[name] = v == "true"
+        elif v.startswith("#b"):
+            values[name] = int(v[2:], 2)
+        elif v.startswith("#x"):
+            values[name] = int(v[2:], 16)
+    return z3.sat, DictModel(values)
 
 
 _EXE = {}
@@ -495,7 +566,7 @@ def predict(p, model, item_text=None):
         elif t[0] == "bool":
             out.append("true" if z3.is_true(model.eval(t[1].t, model_completion=True)) else "false")
         else:
-            out.append(z3str(model.eval(t[1].t, model_completion=True)))
+            out.append(mirfmt.eval_string(t[1].t, model))
     return "".join(out)
 
 
